@@ -17,6 +17,7 @@ from typing import Sequence
 from markupsafe import Markup
 
 from liquid2.builtin import Null
+from liquid2.builtin.expressions import is_truthy
 from liquid2.exceptions import LiquidTypeError
 from liquid2.filter import decimal_arg
 from liquid2.filter import sequence_filter
@@ -184,7 +185,7 @@ def where(
     if value is not None and not is_undefined(value):
         return [itm for itm in sequence if _getitem(itm, attr) == value]
 
-    return [itm for itm in sequence if _getitem(itm, attr) not in (False, None)]
+    return [itm for itm in sequence if is_truthy(_getitem(itm, attr))]
 
 
 @sequence_filter
